@@ -44,8 +44,24 @@ def is_outline(levels):
     return not levels or (levels[0] == min(levels) and all(b <= a + 1 for a, b in zip(levels, levels[1:])))
 
 
+def long_outlines():
+    """long runs of siblings (9-12 and 30 headings on one level), each possibly followed by one child: ordinals, list markers and
+    anything else that grows with the count must not change the nesting"""
+    for n in (9, 10, 11, 12, 30):
+        for top in (1, 2):
+            for child_at in (None, 0, n - 3, n - 2, n - 1, 'all'):
+                levels = []
+                for i in range(n):
+                    levels.append(top)
+                    if child_at == 'all' or child_at == i:
+                        levels.append(top + 1)
+                        if child_at != 'all':
+                            levels.append(top + 2)
+                yield tuple(([1] if top == 2 else []) + levels)
+
+
 def jobs(tier):
-    js = []
+    js = [('long',)]
     for n in range(0, BOUNDS[tier] + 1):
         outs = list(outlines(n))
         step = max(1, len(outs) // 64)
@@ -161,8 +177,29 @@ def configs_for(levels):
 
 
 def run_job(job):
-    n, lo, hi = job
     r = core.Result()
+    if job[0] == 'long':
+        for levels in long_outlines():
+            n = len(levels)
+            for spell in (['atx'] * n, ['setext' if l <= 2 else 'atx' for l in levels]):
+                md, heads = write_doc(levels, spell, ['top'] * n, [0] * n, frozenset())
+                r.states += 1
+                for depth in (1, 2, 3, 6):
+                    for omit in (True, False):
+                        q = [lv for lv, t in heads if lv <= depth and not (omit and lv == 1)]
+                        if not is_outline(q):
+                            r.skip('qualifying headings do not form an outline')
+                            continue
+                        r.transitions += 1
+                        r.validated += 1
+                        f = evaluate(md, heads, depth, omit, False)
+                        if f:
+                            r.fail(dict(markdown=md, heads=heads, depth=depth, omit_title=omit, filter_zz=False), f['sig'], f.get('detail', ''),
+                                   kf=f.get('kf'), expected=f.get('expected'), observed=f.get('observed'))
+                        r.outcome('long-outline')
+        r.sample(dict(space='long runs of siblings'), 1)
+        return r
+    n, lo, hi = job
     outs = list(outlines(n))[lo:hi]
     for levels in outs:
         for spell, place, marks, zz, repeat in configs_for(levels):
